@@ -39,6 +39,10 @@ struct Arena {
 	std::set<uint64_t> stack_at;    // debugging: print the daemon's stack at these allocations
 	uint64_t fill_mode = 0, fill_state = 1;
 	bool exhausted = false;
+	// Default: a freed block is never handed out again within a run (any use after free stays visible). Some runs recycle instead, the way a real
+	// allocator does - the most recently freed block of the same (rounded) size first - so that behaviour that depends on an address or on stale
+	// contents coming back (an id derived from an address, a field that is not initialised) can show.
+	bool reuse = false; std::map<size_t, std::vector<int>> freelist;
 	void init();
 	void *alloc(size_t n, bool zero);
 	void release(void *p);
